@@ -3,6 +3,7 @@
 package verifrt
 
 import (
+	"reflect"
 	"runtime"
 	"sync"
 )
@@ -172,20 +173,67 @@ func OnlySend[T any](turn, n, i int, ch chan<- T) chan<- T {
 }
 
 // SelectSpin is the default case the instrumenter adds to a blocking select:
-// after a full round without a ready case the task lets the others run.
-func SelectSpin(t, n int) {
+// after a full round without a ready case the task lets the others run. dirs
+// has one letter per case ('r' receive, 's' send), chans the case channels: if
+// the partner of one of them is marked as parked but has not reached the
+// runtime yet, the select polls again instead (see Recv2).
+func SelectSpin(t, n int, dirs string, chans ...any) {
 	if (t+1)%n != 0 {
 		return
 	}
 	if chanSim() {
-		waitSpin()
+		if selectPartnerPending(dirs, chans) {
+			noteRetry()
+			runtime.Gosched()
+			return
+		}
+		selectWait()
 		return
 	}
 	runtime.Gosched()
 }
 
-// SelectMore: a select with a default polls each case once before the default runs.
-func SelectMore(t, n int) bool { return t+1 < n }
+// SelectMore: a select with a default polls each case once before the default
+// runs - and again while the partner of a case is on its way into the runtime.
+func SelectMore(t, n int, dirs string, chans ...any) bool {
+	if t+1 < n {
+		return true
+	}
+	if chanSim() && (t+1)%n == 0 && t < 1000*n && selectPartnerPending(dirs, chans) {
+		noteRetry()
+		runtime.Gosched()
+		return true
+	}
+	return false
+}
+
+func selectPartnerPending(dirs string, chans []any) bool {
+	for i, c := range chans {
+		if c == nil || i >= len(dirs) {
+			continue
+		}
+		rv := reflect.ValueOf(c)
+		if rv.Kind() != reflect.Chan || rv.IsNil() || rv.Cap() != 0 {
+			continue
+		}
+		if partnerMarked(rv.Pointer(), dirs[i] == 'r') {
+			return true
+		}
+	}
+	return false
+}
+
+// selectWait: like waitSpin, but the task is counted as a polling select while it waits.
+//
+//go:norace
+func selectWait() {
+	ChanWaits++
+	selectPollers++
+	spin()
+	selectPollers--
+}
+
+var selectPollers int
 
 // GoN: `go f(a...)` with the function value and the arguments evaluated by the
 // starting goroutine, as the go statement does.
